@@ -31,6 +31,9 @@ FLAVOURS = ['rodbus::client::channel::Channel', 'rodbus::client::channel::Callba
 @rule('C03', 'R03.1', 'read limits: the limit-carrying range newtypes can only be produced by the limit checks')
 def r1(c):
     P = c.P
+    for cn, val in (('rodbus::constants::limits::MAX_READ_COILS_COUNT', 2000), ('rodbus::constants::limits::MAX_READ_REGISTERS_COUNT', 125),
+                    ('rodbus::constants::limits::MAX_WRITE_COILS_COUNT', 1968), ('rodbus::constants::limits::MAX_WRITE_REGISTERS_COUNT', 123)):
+        c.ob('const/%s' % cn.rsplit('::', 1)[-1], P.const(cn) == val, '%s = %d (the protocol value, whatever expression it is written as)' % (cn.rsplit('::', 1)[-1], val), str(P.const(cn)))
     for ty, fn_ in (('rodbus::types::ReadBitsRange', 'rodbus::types::AddressRange::of_read_bits'), ('rodbus::types::ReadRegistersRange', 'rodbus::types::AddressRange::of_read_registers')):
         cons = P.constructors(ty)
         where = sorted({P.logical_name(b) for b, _, _ in cons})
